@@ -475,14 +475,43 @@ func c14(c *Ctx) {
 	}
 	if rvf := c.method(pkgManager, "PackageRevisioner", "Revision"); rvf != nil {
 		n := 0
+		// a name handed back through the result temporary of an extracted helper is a phi: look at each
+		// value it can be, at the point where that value is chosen
+		type namedAt struct {
+			v  ssa.Value
+			at ssa.Instruction
+			r  *ssa.Return
+		}
+		var names []namedAt
 		for _, b := range rvf.Blocks {
 			r, ok := b.Instrs[len(b.Instrs)-1].(*ssa.Return)
 			if !ok {
 				continue
 			}
-			v := cfgx.ReturnValue(r, 0)
+			seen := map[ssa.Value]bool{}
+			var expand func(v ssa.Value, at ssa.Instruction)
+			expand = func(v ssa.Value, at ssa.Instruction) {
+				if phi, isPhi := v.(*ssa.Phi); isPhi && !seen[phi] {
+					seen[phi] = true
+					for i, e := range phi.Edges {
+						pred := phi.Block().Preds[i]
+						expand(e, pred.Instrs[len(pred.Instrs)-1])
+					}
+					return
+				}
+				names = append(names, namedAt{v, at, r})
+			}
+			expand(cfgx.ReturnValue(r, 0), r)
+		}
+		for _, na := range names {
+			v, r, b := na.v, na.at, na.r.Block()
 			if s, isC := cfgx.ConstString(v); isC && s == "" {
-				c.R.Check(nonNilError(r) != "nil", load.FuncName(rvf)+": empty name @b"+itoa(b.Index), c.pos(r.Pos()), "an empty name comes with an error", "an empty revision name is returned as success")
+				if na.at == ssa.Instruction(na.r) {
+					c.R.Check(nonNilError(na.r) != "nil", load.FuncName(rvf)+": empty name @b"+itoa(b.Index), c.pos(r.Pos()), "an empty name comes with an error", "an empty revision name is returned as success")
+				}
+				continue
+			}
+			if cfgx.ZeroRead(v) {
 				continue
 			}
 			n++
